@@ -85,6 +85,11 @@ func (c *Config) Merge(from interface{}, options ...Option) error {
 }
 
 func mergeConfig(opts *options, to, from *Config) Error {
+	if to.fields == nil {
+		// the zero value of Config as destination
+		to.fields = &fields{}
+	}
+
 	if err := mergeConfigDict(opts, to, from); err != nil {
 		return err
 	}
